@@ -39,7 +39,7 @@ RULE = ("case = (env state, solver) decision: ModelInstance.get_env() envs (n=3:
 SHARDS = {"quick": 4, "thorough": 16}
 BUDGET = {"quick": 50, "thorough": 420}
 REQUIRED = ["decisions_checked", "fingerprints_compared", "probes_recorded", "tie_states", "expected_greedy_runs",
-            "n3_states_all_orders", "decisions_at_last_allowed_step"]
+            "n3_states_all_orders", "decisions_at_last_allowed_step", "states_reached_by_unstep"]
 
 ASYM = ["noisy_factory", "noisy_factory_square", "noisy_factory_fixed", "graph_cycle", "graph_random", "xos", "xs",
         "factory_cheerleader_next", "graph_internet", "oxs"]
@@ -94,10 +94,10 @@ def decision(ctx, case, env, solver_name, solver, values) -> None:
         bad("invalid-action", f"returned {action!r}, not a currently valid action")
         return
     action = int(action)
-    scale = max(1.0, float(np.max(np.abs(np.array(values)))))
-    tol = 1e-9 * (1.0 + scale * (1 << n))
+    scale = float(np.max(np.abs(np.array(values))))
+    tol = sut.gap_tol(n, scale)
     rewards = {a: -expected_gap(n, values, sorted(set(known) | {explor[a]}), comp, gapname) for a in valid}
-    nontrivial = len({round(r, 9) for r in rewards.values()}) >= 2
+    nontrivial = len({round(r / scale, 9) if scale else 0.0 for r in rewards.values()}) >= 2
     if solver_name in ("greedy", "greedy_worst"):
         pick = max if solver_name == "greedy" else min
         best = pick(rewards.values())
@@ -151,20 +151,45 @@ def decision(ctx, case, env, solver_name, solver, values) -> None:
 
 
 def trajectory(ctx, case) -> None:
-    """Build an env, reach the state after case['actions'], then ask every solver."""
+    """Build an env the way the CLI does, then walk through case['actions'] (ints = step, ['u', a] = unstep) and ask
+    every solver at every state reached.  Solver objects live for the whole reset window (after_reset is called once)."""
     n = case["n"]
     inst = ModelInstance(number_of_players=n, game_class=case["computer"], game_generator=case["generator"],
                          gap_function=case["gap"], seed=case["seed"], run_steps_limit=case.get("budget"))
+    rec = Recorder(inst.game_generator_fn, case.get("scale", 1.0), case.get("offset", 0.0))
+    inst.game_generator_fn = rec
     env = inst.get_env()
+    env.reset()
     values = [float(x) for x in env.full_game.get_values()]
     case = dict(case)
-    case["exact"] = case["generator"] in ("factory", "factory_one", "factory_square", "factory_fixed", "k_budget_generator",
-                                          "factory_cheerleader_next", "graph_cycle")
+    case["exact"] = case.get("scale", 1.0) == 1.0 and case["generator"] in (
+        "factory", "factory_one", "factory_square", "factory_fixed", "k_budget_generator", "factory_cheerleader_next", "graph_cycle")
     solvers = {name: SOLVERS[name](inst) for name in SOLVERS}
     for name, s in solvers.items():
+        try:
+            s.after_reset(env)
+        except Exception as exc:
+            ctx.violation("solver-raised", f"{name}.after_reset raised {type(exc).__name__}: {exc}", case)
+            return
+    for name, s in solvers.items():
         decision(ctx, case, env, name, s, values)
+    done: list[int] = []
     for a in case["actions"]:
-        env.step(a)
+        try:
+            if isinstance(a, (list, tuple)):
+                if a[1] not in done:
+                    continue
+                env.unstep(a[1])
+                done.remove(a[1])
+                ctx.count("states_reached_by_unstep")
+            else:
+                if a in done:
+                    continue
+                env.step(a)
+                done.append(a)
+        except Exception as exc:
+            ctx.violation("env-raised", f"{type(exc).__name__}: {exc} during {a} (done={done})", case)
+            return
         for name, s in solvers.items():
             if name in case.get("solvers", SOLVERS):
                 decision(ctx, case, env, name, s, values)
@@ -175,7 +200,7 @@ def greedy_search(ctx, case) -> None:
     n, comp, gapname, reps, steps = case["n"], case["computer"], case["gap"], case["samples"], case["steps"]
     inst = ModelInstance(number_of_players=n, game_class=comp, game_generator=case["generator"], gap_function=gapname,
                          seed=case["seed"])
-    rec = Recorder(inst.game_generator_fn)
+    rec = Recorder(inst.game_generator_fn, case.get("scale", 1.0))
     inst.game_generator_fn = rec
     env = inst.get_env()
     rnd = pyrandom.Random(case["seed"]) if case["randomize"] else None
@@ -188,8 +213,8 @@ def greedy_search(ctx, case) -> None:
     games = rec.games[-reps:]
     mini = sorted(minimal_masks(n))
     explor = gen.explorable(n)
-    scale = max(1.0, max(float(np.max(np.abs(np.array(g)))) for g in games))
-    tol = 1e-9 * (1.0 + scale * (1 << n))
+    scale = max(float(np.max(np.abs(np.array(g)))) for g in games)
+    tol = sut.gap_tol(n, scale)
     slack = (EPSILON if case["randomize"] else 0.0) + tol
 
     def mean_gap(s):
@@ -249,8 +274,9 @@ def run(ctx) -> None:
         gapname = rng.choice(list(GAP_FUNCTIONS))
         seed = rng.randint(0, 10**6)
         for order in permutations(range(3)):
-            trajectory(ctx, {"n": 3, "generator": g, "computer": comp, "gap": gapname, "seed": seed, "actions": list(order),
-                             "budget": rng.choice([None, 1, 2, 3])})
+            acts3 = list(order) + [["u", order[1]], ["u", order[0]], order[0], ["u", order[2]], order[1]]
+            trajectory(ctx, {"n": 3, "generator": g, "computer": comp, "gap": gapname, "seed": seed, "actions": acts3,
+                             "budget": rng.choice([None, 1, 2, 3]), "scale": rng.choice(sut.SCALES)})
         ctx.count("n3_states_all_orders")
     i = 0
     while not ctx.out_of_time(6.0):
@@ -264,15 +290,25 @@ def run(ctx) -> None:
             greedy_search(ctx, {"n": n, "generator": g, "computer": comp, "gap": gapname, "seed": rng.randint(0, 10**6),
                                 "samples": rng.randint(1, 4), "steps": rng.randint(1, min(nexp, 3 if n == 3 else 4)),
                                 "processes": rng.choice([1, 2, 5]), "randomize": rng.random() < 0.4,
-                                "brute_k": 3 if n == 3 else 2})
+                                "brute_k": 3 if n == 3 else 2, "scale": rng.choice(sut.SCALES)})
         else:
             n = rng.choice([4, 4, 5])
             nexp = (1 << n) - n - 2
             acts = list(range(nexp))
             rng.shuffle(acts)
             acts = acts[: rng.randint(1, nexp - 1 if n == 4 else 8)]
+            mixed = []
+            for a_ in acts:                      # interleave un-steps of earlier actions (states reached by taking moves back)
+                mixed.append(a_)
+                if rng.random() < 0.3:
+                    back = rng.choice([x for x in mixed if not isinstance(x, list)])
+                    mixed.append(["u", back])
+                    if rng.random() < 0.5:
+                        mixed.append(back)
+            acts = mixed
             trajectory(ctx, {"n": n, "generator": g, "computer": comp, "gap": gapname, "seed": rng.randint(0, 10**6),
-                             "actions": acts, "budget": rng.choice([None, None, rng.randint(1, len(acts) + 1)]), "solvers": ["greedy", "greedy_worst", "largest", "random"] if n == 4 else
+                             "actions": acts, "budget": rng.choice([None, None, rng.randint(1, len(acts) + 1)]),
+                             "scale": rng.choice(sut.SCALES), "offset": rng.choice([0.0, 0.0, 0.0, -1e6]), "solvers": ["greedy", "greedy_worst", "largest", "random"] if n == 4 else
                              rng.sample(["greedy", "greedy_worst", "largest", "random"], 2)})
 
 
